@@ -454,7 +454,11 @@ def hostile_replay(tier, out):
     t0 = time.time()
     src = os.path.join(os.environ.get("REDUINO_REPO", "/repo"), "src")
     cases = hostile_cases()
-    r = subprocess.run(["/venv/bin/python", "-c", HOSTILE, src, json.dumps(cases)], capture_output=True, text=True, timeout=600)
+    # the workers' scratch directories live under a directory this process owns and removes (a worker killed on a time-out cannot clean up)
+    import tempfile as _tf
+    _scratch = _tf.TemporaryDirectory(prefix="c11-scratch-")
+    _wenv = dict(os.environ, TMPDIR=_scratch.name)
+    r = subprocess.run(["/venv/bin/python", "-c", HOSTILE, src, json.dumps(cases)], capture_output=True, text=True, timeout=600, env=_wenv)
     executed, crashed, slow = [], [], []
     res = []
     if r.returncode != 0:
@@ -548,7 +552,7 @@ def hostile_replay(tier, out):
     def one_case(job):
         name, text = job
         try:
-            rr = subprocess.run(["/venv/bin/python", "-c", HOSTILE, src, json.dumps([[name, text]])], capture_output=True, text=True, timeout=20)
+            rr = subprocess.run(["/venv/bin/python", "-c", HOSTILE, src, json.dumps([[name, text]])], capture_output=True, text=True, timeout=20, env=_wenv)
             one = json.loads(rr.stdout)[0] if rr.returncode == 0 else {"result": "CRASH:harness " + rr.stderr[-200:]}
             if one["result"].startswith("CRASH"):
                 return {"case": name, "result": one["result"], "source": text[:120]}
@@ -558,6 +562,7 @@ def hostile_replay(tier, out):
     from concurrent.futures import ThreadPoolExecutor
     with ThreadPoolExecutor(16) as ex:
         hung = [h for h in ex.map(one_case, big) if h]
+    _scratch.cleanup()
     out.append({"name": "C11/bounded/terminates-promptly", "status": "discharged" if not hung else "sat", "backend": "bounded-native",
                 "where": f"{len(big)} scripts (explosive constant expressions, pathological headers, every device method called on an undeclared name / an alias) are transpiled or rejected within 20 s each",
                 "time": 0.0, "bounded": True, "replay": {"cases": hung}, "replay_confirmed": bool(hung)})
